@@ -227,3 +227,51 @@ int __wrap_pthread_mutex_lock(pthread_mutex_t *m)
         if (!ctl_mutex_wait_step()) return __real_pthread_mutex_lock(m);
     }
 }
+
+#ifdef __OPENMP
+/* ---------------------------------------------------------------- OpenMP build: the same controller drives the OpenMP team
+ * p?gstrf starts its workers with `#pragma omp parallel for` over nprocs iterations and protects its shared state with named
+ * `omp critical` regions.  The parallel region is started with exactly nprocs threads (static schedule: thread k runs iteration
+ * k = worker pnum k), each team member registers with the controller like a pthread worker does, and the named critical regions
+ * become try-lock loops on harness-owned mutexes so that the token holder never blocks in the kernel. */
+#include <omp.h>
+void __real_GOMP_parallel(void (*fn)(void *), void *data, unsigned num_threads, unsigned flags);
+extern int sched_current_P(void);
+typedef struct { void (*fn)(void *); void *data; } omp_tramp_t;
+static void omp_tramp(void *p)
+{
+    omp_tramp_t *t = (omp_tramp_t *)p; long pnum = omp_get_thread_num();
+    ctl_thread_start(pnum, NULL);
+    t->fn(t->data);
+    ctl_thread_exit(pnum, NULL);
+}
+void __wrap_GOMP_parallel(void (*fn)(void *), void *data, unsigned num_threads, unsigned flags)
+{
+    if (!g_track) { __real_GOMP_parallel(fn, data, num_threads, flags); return; }
+    omp_tramp_t t = { fn, data };
+    __real_GOMP_parallel(omp_tramp, &t, (unsigned)sched_current_P(), flags);
+}
+static struct { void **key; pthread_mutex_t m; } omp_crit[32];
+static int omp_ncrit = 0;
+static pthread_mutex_t omp_crit_tab = PTHREAD_MUTEX_INITIALIZER;
+static pthread_mutex_t *omp_crit_find(void **pptr)
+{
+    pthread_mutex_t *r = NULL;
+    __real_pthread_mutex_lock(&omp_crit_tab);
+    for (int i = 0; i < omp_ncrit; ++i) if (omp_crit[i].key == pptr) r = &omp_crit[i].m;
+    if (!r && omp_ncrit < 32) { omp_crit[omp_ncrit].key = pptr; pthread_mutex_init(&omp_crit[omp_ncrit].m, NULL); r = &omp_crit[omp_ncrit++].m; }
+    pthread_mutex_unlock(&omp_crit_tab);
+    if (!r) abort();
+    return r;
+}
+void __wrap_GOMP_critical_name_start(void **pptr)
+{
+    pthread_mutex_t *m = omp_crit_find(pptr);
+    for (;;) {
+        int r = pthread_mutex_trylock(m);
+        if (r != EBUSY) return;
+        if (!ctl_mutex_wait_step()) { __real_pthread_mutex_lock(m); return; }
+    }
+}
+void __wrap_GOMP_critical_name_end(void **pptr) { pthread_mutex_unlock(omp_crit_find(pptr)); }
+#endif
